@@ -266,7 +266,7 @@ func TestC03_RawPeer(t *testing.T) {
 		"side of the timeout; emitter = Go client or Go server; oracle: callback exactly once per request with the token of one of the ACKs sent for that very request (ErrAckTimeout when the ACK is late), a fresh round trip still works; "+
 		"non-trivial = duplicates >= 2 or unknown ids or a late ACK")
 	rapidGuard(t, "C03", c03CheckRaw)
-	runRapid(t, c03CheckRaw, tierN(300, 8000), func(t *rapid.T) {
+	runRapid(t, c03CheckRaw, tierN(1200, 12000), func(t *rapid.T) {
 		c := c03RawCase{Emitter: rapid.SampledFrom([]string{"client", "server"}).Draw(t, "emitter"), Transport: rapid.SampledFrom([]string{"polling", "websocket"}).Draw(t, "transport"),
 			TimeoutMs: rapid.SampledFrom([]int{0, 1000}).Draw(t, "timeout"), Emits: rapid.IntRange(1, 4).Draw(t, "emits"), Duplicates: rapid.IntRange(1, 3).Draw(t, "dups"),
 			UnknownIDs: rapid.Bool().Draw(t, "unknown"), Binary: rapid.Bool().Draw(t, "binary")}
